@@ -338,6 +338,309 @@ class AddCandEdges(Contract):
         return out
 
 
+# ------------------------------------------------------------------ _compute_node_frame_dict
+CNFD = "funtracks.candidate_graph.utils._compute_node_frame_dict"
+
+
+class GrowDict(ModelObj):
+    """a dict frame -> list of nodes that is built by `d[t] = []` and `d[t].append(n)`: has(f), ln(f), el(f, j), idx(n)"""
+
+    type_names = ("dict",)
+
+    def __init__(self, ctx):
+        self.ctx = ctx
+        self.fresh()
+
+    def fresh(self):
+        ctx = self.ctx
+        self.has = ctx.fresh_fun("gd_has", Int, Bool)
+        self.ln = ctx.fresh_fun("gd_len", Int, Int)
+        self.el = ctx.fresh_fun("gd_el", Int, Int, Int)
+        self.idx = ctx.fresh_fun("gd_idx", Int, Int)
+
+    @staticmethod
+    def empty(ctx):
+        d = GrowDict(ctx)
+        ctx.assume(forall([f_], AND(z3.Not(d.has(f_)), d.ln(f_) == 0)))
+        return d
+
+    def m_contains(self, I, f):
+        return Sym(self.has(to_z3(f, Int)))
+
+    def m_setitem(self, I, f, v):
+        if not (isinstance(v, list) and not v):
+            raise Unsupported("only `d[t] = []` is modelled")
+        fe = to_z3(f, Int)
+        has0, ln0 = self.has, self.ln
+        self.has = self.ctx.fresh_fun("gd_has", Int, Bool)
+        self.ln = self.ctx.fresh_fun("gd_len", Int, Int)
+        self.ctx.assume(forall([f_], AND(self.has(f_) == OR(has0(f_), f_ == fe), self.ln(f_) == z3.If(f_ == fe, 0, ln0(f_)))))
+
+    def m_getitem(self, I, f):
+        fe = to_z3(f, Int)
+        if not I.ctx.branch(self.has(fe), "frame is a key"):
+            raise PyRaise(BuiltinExc("KeyError", (f,)))
+        return GrowList(self, fe)
+
+
+class GrowList(ModelObj):
+    type_names = ("list",)
+
+    def __init__(self, d, f):
+        self.d, self.f = d, f
+
+    def do_append(self, I, x):
+        d, f, ctx = self.d, self.f, self.d.ctx
+        xe = to_z3(x, Int)
+        ln0, el0, idx0 = d.ln, d.el, d.idx
+        d.ln = ctx.fresh_fun("gd_len", Int, Int)
+        d.el = ctx.fresh_fun("gd_el", Int, Int, Int)
+        d.idx = ctx.fresh_fun("gd_idx", Int, Int)
+        ctx.assume(forall([f_], d.ln(f_) == z3.If(f_ == f, ln0(f_) + 1, ln0(f_))))
+        ctx.assume(forall([f_, j_], d.el(f_, j_) == z3.If(AND(f_ == f, j_ == ln0(f)), xe, el0(f_, j_))))
+        ctx.assume(forall([a_], d.idx(a_) == z3.If(a_ == xe, ln0(f), idx0(a_))))
+
+
+class TimeAttrs(ModelObj):
+    def __init__(self, W, n):
+        self.W, self.n = W, n
+
+    def m_getitem(self, I, k):
+        if k == "time":
+            return Sym(self.W.fr(self.n))
+        raise Unsupported(f"node attribute {k!r}")
+
+
+class NodesCallable(ModelObj):
+    """graph.nodes[...] and graph.nodes(data=True): the nodes in some order without repetition, with their attributes"""
+
+    def __init__(self, W):
+        self.W = W
+
+    def m_getitem(self, I, n):
+        return NodeAttrs(to_z3(n, Int))
+
+    def m_call_self(self, I, args, kw):
+        if args or kw.get("data") is not True:
+            raise Unsupported("graph.nodes(...) arguments")
+        return self.W.node_list
+
+
+class CandGraph2(CandGraph):
+    def attr_nodes(self, I):
+        return NodesCallable(self.W)
+
+
+class BuildLoop(LoopSpec):
+    """for node, data in cand_graph.nodes(data=True)  (k nodes filed): every key has a non-empty list; every listed node is
+    one of the first k nodes, sits in the list of its frame at its own index; every one of the first k nodes is listed"""
+
+    props = ("C18",)
+
+    def __init__(self, W):
+        self.W = W
+
+    def enter(self, I, fr, it):
+        d = fr.env["node_frame_dict"]
+        if not isinstance(d, GrowDict):
+            fr.env["node_frame_dict"] = GrowDict.empty(I.ctx)
+
+    def havoc(self, I, fr, it, i, assigned):
+        for nm in ("node", "data", "t"):
+            fr.env.pop(nm, None)
+        fr.env["node_frame_dict"].fresh()
+        d = fr.env["node_frame_dict"]
+        d.has = I.ctx.fresh_fun("gd_has", Int, Bool)
+
+    def inv(self, I, fr, it, k):
+        W, d = self.W, fr.env["node_frame_dict"]
+        return nfd_clauses(W, d, k)
+
+
+def nfd_clauses(W, d, k):
+    pos = W.node_pos
+    return [
+        ("keys-are-the-frames-with-a-non-empty-list", forall([f_], AND(d.ln(f_) >= 0, d.has(f_) == (d.ln(f_) > 0)))),
+        ("listed-nodes-sit-in-their-frame's-list-once", forall([f_, j_], IMP(AND(j_ >= 0, j_ < d.ln(f_)), AND(W.N(d.el(f_, j_)), pos(d.el(f_, j_)) < k, W.fr(d.el(f_, j_)) == f_, d.idx(d.el(f_, j_)) == j_)))),
+        ("every-filed-node-is-listed", forall([a_], IMP(AND(W.N(a_), pos(a_) < k), AND(d.idx(a_) >= 0, d.idx(a_) < d.ln(W.fr(a_)), d.el(W.fr(a_), d.idx(a_)) == a_)))),
+    ]
+
+
+class ComputeNodeFrameDict(Contract):
+    """the real _compute_node_frame_dict establishes exactly what add_cand_edges assumes of node_frame_dict"""
+
+    qualname = CNFD
+    props = ("C18",)
+
+    def run(self, I, cfg):
+        ctx = I.ctx
+        W = World(ctx)
+        n = ctx.fresh("n_nodes", Int)
+        NLf = ctx.fresh_fun("node_at", Int, Int)
+        pos = ctx.fresh_fun("node_pos", Int, Int)
+        ctx.assume(n >= 0)
+        ctx.assume(forall([i_], IMP(AND(i_ >= 0, i_ < n), AND(W.N(NLf(i_)), pos(NLf(i_)) == i_))))
+        ctx.assume(forall([a_], IMP(W.N(a_), AND(pos(a_) >= 0, pos(a_) < n, NLf(pos(a_)) == a_))))
+        W.node_pos = pos
+        W.node_list = SymList(n, lambda i: (Sym(NLf(i)), TimeAttrs(W, NLf(i))))
+        g = CandGraph2(W)
+        ctx.loopspecs[(CNFD, 0)] = BuildLoop(W)
+        out = call_real(I, CNFD, [g], {})
+        q = "_compute_node_frame_dict"
+        if out[0] != "return":
+            ctx.oblige(f"C18/{q}/no-exception", False, props=self.props, note=str(out[1]))
+            return out
+        d = out[1]
+        ok = isinstance(d, GrowDict)
+        ctx.oblige(f"C18/{q}/ensures:returns-the-mapping", z3.BoolVal(ok), props=self.props)
+        if ok:
+            for lbl, f in nfd_clauses(W, d, n):
+                ctx.oblige(f"C18/{q}/ensures:{lbl}", f, props=self.props)
+        return out
+
+
+# ------------------------------------------------------------------ nodes_from_points_list
+NFPL = "funtracks.candidate_graph.utils.nodes_from_points_list"
+Pos = z3.DeclareSort("PosVal")
+
+
+class PointRow(ModelObj):
+    def __init__(self, P, i):
+        self.P, self.i = P, i
+
+    def m_getitem(self, I, idx):
+        if idx == 0:
+            return Sym(self.P.T(self.i))
+        if isinstance(idx, slice) and idx.start == 1 and idx.stop is None and idx.step is None:
+            return PosSlice(self.P, self.i)
+        raise Unsupported("point index")
+
+
+class PosSlice(ModelObj):
+    def __init__(self, P, i):
+        self.P, self.i = P, i
+
+    def m_to_list(self, I):
+        return PosList(self.P, self.i)
+
+
+class PosList(ModelObj):
+    """list(point[1:]): the position of point i as an opaque value"""
+
+    type_names = ("list",)
+
+    def __init__(self, P, i):
+        self.e = P.pos(i)
+
+
+class Points(ModelObj):
+    """an N x D array of points: T(i) = point[i][0] (time), pos(i) = the remaining coordinates (opaque)"""
+
+    type_names = ("ndarray",)
+
+    def __init__(self, ctx):
+        self.n = ctx.fresh("n_points", Int)
+        self.T = ctx.fresh_fun("pt_time", Int, Int)
+        self.pos = ctx.fresh_fun("pt_pos", Int, Pos)
+        ctx.assume(self.n >= 0)
+
+    def m_iter(self, I):
+        return SymList(self.n, lambda i: PointRow(self, i))
+
+
+class NewGraph(ModelObj):
+    """nx.DiGraph() being filled by add_node(n, time=..., pos=...)"""
+
+    type_names = ("DiGraph",)
+
+    def __init__(self, ctx):
+        self.ctx = ctx
+        self.N = ctx.fresh_fun("N", Int, Bool)
+        self.fr = ctx.fresh_fun("fr", Int, Int)
+        self.posattr = ctx.fresh_fun("posattr", Int, Pos)
+        ctx.assume(forall([a_], z3.Not(self.N(a_))))
+        self.edges_added = 0
+
+    def havoc(self):
+        ctx = self.ctx
+        self.N = ctx.fresh_fun("N", Int, Bool)
+        self.fr = ctx.fresh_fun("fr", Int, Int)
+        self.posattr = ctx.fresh_fun("posattr", Int, Pos)
+
+    def do_add_node(self, I, n, **attrs):
+        if set(attrs) != {"time", "pos"} or not isinstance(attrs["pos"], PosList):
+            raise Unsupported(f"add_node attributes {sorted(attrs)}")
+        ne, te, pe = to_z3(n, Int), to_z3(attrs["time"], Int), attrs["pos"].e
+        N0, fr0, p0 = self.N, self.fr, self.posattr
+        self.havoc()
+        self.ctx.assume(forall([a_], AND(self.N(a_) == OR(N0(a_), a_ == ne), self.fr(a_) == z3.If(a_ == ne, te, fr0(a_)),
+                                         self.posattr(a_) == z3.If(a_ == ne, pe, p0(a_)))))
+
+    def do_add_edge(self, I, *a, **k):
+        self.edges_added += 1
+
+
+class PointsLoop(LoopSpec):
+    """for i, point in enumerate(points_list)  (k points added): nodes are 0..k-1 with the point's time and position; the frame
+    dictionary files exactly those nodes"""
+
+    props = ("C18",)
+
+    def __init__(self, P):
+        self.P = P
+
+    def enter(self, I, fr, it):
+        if not isinstance(fr.env["node_frame_dict"], GrowDict):
+            fr.env["node_frame_dict"] = GrowDict.empty(I.ctx)
+
+    def havoc(self, I, fr, it, i, assigned):
+        for nm in ("i", "point", "t", "pos", "node_id", "attrs"):
+            fr.env.pop(nm, None)
+        fr.env["node_frame_dict"].fresh()
+        fr.env["cand_graph"].havoc()
+
+    def inv(self, I, fr, it, k):
+        return points_clauses(self.P, fr.env["cand_graph"], fr.env["node_frame_dict"], k)
+
+
+def points_clauses(P, g, d, k):
+    W = type("W", (), {"N": g.N, "fr": g.fr, "node_pos": staticmethod(lambda a: a)})
+    return [
+        ("one-node-per-point-with-its-index-as-id", forall([a_], g.N(a_) == AND(a_ >= 0, a_ < k))),
+        ("node-carries-the-point's-time-and-position", forall([a_], IMP(AND(a_ >= 0, a_ < k), AND(g.fr(a_) == P.T(a_), g.posattr(a_) == P.pos(a_))))),
+        ("no-edges-added", z3.BoolVal(g.edges_added == 0)),
+    ] + nfd_clauses(W, d, k)
+
+
+class NodesFromPointsList(Contract):
+    qualname = NFPL
+    props = ("C18",)
+
+    def run(self, I, cfg):
+        ctx = I.ctx
+        P = Points(ctx)
+        made = []
+
+        def digraph(I_, a, k):
+            g = NewGraph(ctx)
+            made.append(g)
+            return g
+        I.ext["networkx.DiGraph"] = digraph
+        ctx.loopspecs[(NFPL, 0)] = PointsLoop(P)
+        out = call_real(I, NFPL, [P], {"scale": None})
+        q = "nodes_from_points_list"
+        if out[0] != "return":
+            ctx.oblige(f"C18/{q}/no-exception", False, props=self.props, note=str(out[1]))
+            return out
+        res = out[1]
+        ok = isinstance(res, tuple) and len(res) == 2 and isinstance(res[0], NewGraph) and isinstance(res[1], GrowDict) and len(made) == 1
+        ctx.oblige(f"C18/{q}/ensures:returns-(graph,frame-dictionary)", z3.BoolVal(ok), props=self.props)
+        if ok:
+            for lbl, f in points_clauses(P, res[0], res[1], P.n):
+                ctx.oblige(f"C18/{q}/ensures:{lbl}", f, props=self.props)
+        return out
+
+
 def units():
     from pyvc.verify import Unit
-    return [Unit(AddCandEdges(), {})]
+    return [Unit(AddCandEdges(), {}), Unit(ComputeNodeFrameDict(), {}), Unit(NodesFromPointsList(), {})]
